@@ -37,9 +37,9 @@ INVALID.append("subroutine s6\n  real :: tan\n  oops:\nend subroutine s6\n")
 VALID.append("program p7\n  x = sin(1.0) + tan(2.0)\nend program p7\n")
 # keyword=value lists whose admissible keywords differ between the standards (class-level
 # tables that a parse under one standard must not leave changed for the other)
-VALID.append("program p8\n  open (unit = 10, file = 'f.dat', status = 'old')\n  allocate (a(10), stat = ierr)\n"
-             "  type t8\n    real, pointer :: v(:)\n  end type t8\nend program p8\n")
-VALID.append("program p9\n  open (newunit = lun, file = 'f.dat')\n  allocate (a, mold = b)\n  error stop\nend program p9\n")
+VALID.append("program p8\n  type t8\n    real, pointer :: v(:)\n  end type t8\n  open (unit = 10, file = 'f.dat', status = 'old')\n"
+             "  allocate (a(10), stat = ierr)\n  close (unit = 10, status = 'keep')\n  inquire (unit = 10, opened = lo)\nend program p8\n")
+VALID.append("program p9\n  open (newunit = lun, file = 'f.dat')\nend program p9\n")
 VALID_F08_ONLY.add(6)
 
 LETTERS = ["c03", "c08", "v0", "v1", "v2", "v3", "v4", "v5", "v6", "i0", "i1", "i2", "i3", "i4", "i5", "i6"]
